@@ -150,7 +150,8 @@ def cmd_gen():
     for rel in FILES:
         ms = gen_file(rel)
         for m in ms:
-            m["checks"] = prio(rel, set(cov.get((rel, m["line"]), [])))
+            pr = PRIO.get(os.path.basename(rel)[:-3], "").split()
+            m["checks"] = [c for c in prio(rel, set(cov.get((rel, m["line"]), []))) if c in pr][:6]
         allm += ms
     allm = [m for m in allm if m["checks"]]
     for i, m in enumerate(allm):
@@ -187,9 +188,11 @@ def cmd_run(slot, nslots, every=1, procs=4):
     shutil.copytree(REPO + "/coxeter", repo + "/coxeter", ignore=shutil.ignore_patterns("__pycache__"))
     os.makedirs("/verif/mutation", exist_ok=True)
     resf = "/verif/mutation/results_%d.jsonl" % slot
+    import glob
     done = set()
-    if os.path.exists(resf):
-        done = {json.loads(l)["id"] for l in open(resf)}
+    for f in glob.glob("/verif/mutation/results_*.jsonl"):
+        # identify finished mutants by position and replacement, not by id (ids shift when the mutant list is regenerated)
+        done |= {(r["file"], r["line"], r["kind"], r["old"], r["new"]) for r in map(json.loads, open(f))}
     if every == 0:
         # mixed selection: every 2nd structural mutant, every 6th numeric-constant mutant
         sel = [m for m in ms if (m["kind"] != "const" and m["id"] % 2 == 0) or (m["kind"] == "const" and m["id"] % 6 == 0)]
@@ -197,7 +200,7 @@ def cmd_run(slot, nslots, every=1, procs=4):
         sel = [m for m in ms if m["id"] % every == 0]
     sel = [m for k, m in enumerate(sel) if k % nslots == slot]
     for m in sel:
-        if m["id"] in done:
+        if (m["file"], m["line"], m["kind"], m["old"], m["new"]) in done:
             continue
         path = os.path.join(repo, m["file"])
         orig = open(os.path.join(REPO, m["file"]), "rb").read()
